@@ -173,6 +173,7 @@ def run(chk: Check) -> None:
     run_class_object_protocol_checks(chk, ix)
     run_assumption_discipline(chk, ix)
     run_no_inplace_hash_mutation(chk, ix)
+    run_whole_component_equality(chk, ix)
 
     # ---------------- R08.2
     r2 = chk.rule("R08.2", "for every Type subclass the attributes hashed by __hash__ are compared by __eq__ (equal values hash equal; the memo never misses or conflates because of an uncompared hashed field)", floor=15)
@@ -360,6 +361,22 @@ def run_assumption_discipline(chk: Check, ix) -> None:
             r6.ok(key, rec.loc(st))
         else:
             r6.violation(key, rec.loc(st), f"the positive entry is stored whatever `self.{a}` holds: an answer that relies on a pending assumption about recursive aliases outlives the assumption")
+    # protocols: the assumption stacks are per TypeInfo (TypeInfo.assuming / assuming_proper)
+    ipi = ix.func("mypy.subtypes.is_protocol_implementation")
+    hits = []
+    for lp in ast.walk(ipi.node):
+        if isinstance(lp, ast.For) and "assuming" in norm(lp.iter):
+            for i in ast.walk(lp):
+                if isinstance(i, ast.If) and any(isinstance(r, ast.Return) and isinstance(r.value, ast.Constant) and r.value.value is True for r in i.body):
+                    hits.append(i)
+    if not hits:
+        raise AnalysisError("is_protocol_implementation: the `already assumed` shortcut over TypeInfo.assuming was not found")
+    key = "a positive entry is not stored after a protocol assumption (TypeInfo.assuming) has been relied on"
+    flags = {norm(a.targets[0]).split(".")[-1] for i in hits for a in i.body if isinstance(a, ast.Assign) and norm(a.targets[0]).startswith("type_state.")}
+    if flags & excluded:
+        r6.ok(key, ipi.loc(hits[0]), f"the shortcut sets type_state.{sorted(flags & excluded)[0]}, which record_subtype_cache_entry tests")
+    else:
+        r6.violation(key, ipi.loc(hits[0]), "the `(left, right) is already assumed` shortcut returns True without leaving a trace, and record_subtype_cache_entry only looks at the alias stacks: an inner pair verified on the strength of an outer protocol assumption is cached as a subtype even when the outer check then fails (B <: Q assumed, A <: P holds under it and is cached, B <: Q fails on another member; later `C -> R` needing A <: P is accepted, and the result depends on the order of the functions in the file)")
 
 
 CHECK_TIME_MODULES = ("mypy.typeops", "mypy.checker", "mypy.checkexpr", "mypy.checkmember", "mypy.checkpattern", "mypy.checkstrformat", "mypy.join", "mypy.meet", "mypy.subtypes", "mypy.expandtype", "mypy.applytype", "mypy.solve", "mypy.constraints", "mypy.infer", "mypy.binder", "mypy.erasetype", "mypy.plugins.")
@@ -441,3 +458,26 @@ def run_no_inplace_hash_mutation(chk: Check, ix) -> None:
                     r7.violation(key, f.loc(a), f"{why}: that object may be held elsewhere (the binder, the type map, a cache key), and this assignment changes it there too")
     if n < 4:
         raise AnalysisError(f"only {n} assignments to hashed type fields found in type-checking-time modules")
+
+
+def run_whole_component_equality(chk: Check, ix) -> None:
+    """R08.8: type equality compares component types whole, never a projection of them."""
+    r8 = chk.rule("R08.8", "in __eq__ and __hash__ of every Type subclass a component reached from self/other (`self.partial_fallback`, `self.fallback`, `self.item`, ...) enters the comparison whole: no sub-attribute of a component (`self.partial_fallback.type`) is compared or hashed in its place. `left == right` short-cuts is_subtype / is_proper_subtype, de-duplicates union items and keys the subtype caches, so an equality that drops a component's type arguments makes two different types one", floor=30)
+    for c in type_classes(ix):
+        for mname in ("__eq__", "__hash__"):
+            f = c.methods.get(mname)
+            if f is None:
+                continue
+            par = f.module.parents()
+            proj = []
+            for n in ast.walk(f.node):
+                if isinstance(n, ast.Attribute) and isinstance(n.value, ast.Attribute) and isinstance(n.value.value, ast.Name) and n.value.value.id in ("self", "other"):
+                    p = par.get(n)
+                    if isinstance(p, ast.Call) and p.func is n:
+                        continue  # a method of a container field: self.items.keys()
+                    proj.append(n)
+            key = f"{c.name}.{mname}: components are compared whole"
+            if not proj:
+                r8.ok(key, f.loc())
+            else:
+                r8.violation(key, f.loc(proj[0]), f"`{norm(proj[0])}` takes a sub-attribute of the component `{norm(proj[0].value)}`: what else the component carries (e.g. the type arguments of a tuple type's fallback Instance, which are not derived from the items for a generic tuple subclass `class Key(NamedTuple, Generic[T])`) no longer distinguishes two {c.name} values")
